@@ -171,6 +171,13 @@ def run(chk):
             want = {dest: b"OLD CONTENT"} if pre else {}
             if {k: v for k, v in contents.items() if not k.startswith("<OUTSIDE>")} != want:
                 chk.violation("a failed save_target(%r) created or modified files: %s" % (n, paths), full)
+            joinurl = code[0] == 900 and len(code) > 1 and bytes(code[1][:7]) == b"JoinUrl"
+            if joinurl:
+                # Url::join refuses the name (e.g. a resolved name that begins with two slashes or backslashes is a
+                # scheme-relative reference without host): the target cannot be fetched at all; nothing was written
+                # (checked above). Url::join is outside the model: not compared.
+                chk.count("excused:url-join-refuses-name")
+                continue
             if cor == "none" and not absolute and code[0] not in (22,):
                 chk.broken("intact transfer failed: %s" % code, full)
         # strip the observation counters (oracle only) before comparing with the model
